@@ -148,7 +148,14 @@ static int fileWord(FILE *fd, MPT_TYPE(type) type, void *val)
 	if (ret == MPT_ERROR(BadType)) {
 		return 0;
 	}
-	return ret < 0 ? ret : 1;
+	if (ret < 0) {
+		return ret;
+	}
+	/* word continues behind the number */
+	if ((size_t) ret != len) {
+		return MPT_ERROR(BadValue);
+	}
+	return 1;
 }
 /* element convertable interface */
 static int fileGet(MPT_INTERFACE(convertable) *conv, MPT_TYPE(type) type, void *ptr)
